@@ -14,7 +14,7 @@ import numpy as np
 
 from .. import models
 from ..core import RunResult, adigest, mix
-from ..seams import global_state_digest
+from ..seams import global_rng_interrupts, global_state_digest
 from .hist_common import quiet
 
 NAME = "K"
@@ -25,8 +25,16 @@ REQUIRED_PROBES = {"quick": ["other_container", "randomized_stage_ran", "exact_r
 COMPONENTS = {"real": ["toqito.matrix_props.sk_operator_norm incl. the randomised lower bound", "toqito.state_props.sk_vector_norm, schmidt_rank, schmidt_decomposition", "toqito.perms.swap / symmetric_projection", "toqito.channels.partial_trace / partial_transpose / realignment", "scipy.linalg.eigh, cvxpy + SCS/Clarabel"], "stub": ["numpy process-global legacy RNG state (set from the choice source; adversary draws between calls)"]}
 RULE = ("one run = one operator, or two operators of the same local dimensions and k used alternately (density / PSD / projection of seeded rank / rank one / indefinite Hermitian / non-Hermitian / diagonal / block-diagonal / normal-cone operators at PPT edge states / |p><q|+|q><p|; targets placed just below or above an attainable value; local dimensions 2..4, unequal allowed; k = 1..min dim; dim as list / scalar / omitted; effort 0..2; target set or not) "
         "evaluated under 2..4 global-RNG states with adversary draws in between; non-trivial = the randomised stage executed (global RNG state advanced by the call); distinct = distinct digest of (operator, k, options, RNG states)")
-SHRINK_ORDER = ["config", "operator", "rng"]
+SHRINK_ORDER = ["config", "operator", "rng", "intr"]
 SLACK = 3e-4  # relative to the operator norm; clean-tree excesses observed up to ~4e-5 (evidence: closest_margins)
+
+
+def _toqito_prefix():
+    import os
+
+    import toqito.matrix_props as mp
+
+    return os.path.dirname(os.path.dirname(os.path.abspath(mp.__file__))) + os.sep
 
 
 def _lib():
@@ -493,15 +501,24 @@ def run(cs, tier, run_index):
         k = sub.meta["k"]
         seed = rs.draw(1 << 32)
         adv = rs.draw(4)
+        pinned = False
         if not sub.outcomes and getattr(sub, "first_seed", None) is not None:
-            seed, adv = sub.first_seed, 0
+            seed, adv, pinned = sub.first_seed, 0, True
         np.random.seed(seed)
         if adv:  # adversary: other code in the process advances the global stream between calls
             np.random.randn(adv * 7)
             res.fault("adversary_global_draws")
+        # in a quarter of the calls, writes to the global generator also land INSIDE the call (own stream)
+        intr = None
+        if not pinned and cs.s("intr").draw(4) == 0:
+            intr = global_rng_interrupts(cs.s("intr"), _toqito_prefix(), res=res, log=res.log)
         before = global_state_digest()
         try:
-            out = sk(x, sub.k_arg, sub.dim_arg, sub.meta["target"], sub.meta["effort"])
+            if intr is not None:
+                with intr:
+                    out = sk(x, sub.k_arg, sub.dim_arg, sub.meta["target"], sub.meta["effort"])
+            else:
+                out = sk(x, sub.k_arg, sub.dim_arg, sub.meta["target"], sub.meta["effort"])
             lo, up = float(np.real(out[0])), float(np.real(out[1]))
             o = ("ok", lo, up)
         except ValueError as e:
@@ -520,6 +537,10 @@ def run(cs, tier, run_index):
         after = global_state_digest()
         if before != after:
             stage_ran += 1
+        if intr is not None and intr.fired:
+            meta["rng_writes_inside_call"] = [list(f) for f in intr.fired]
+            if any("randomized" in w for _, w in intr.fired):
+                res.probe("rng_write_inside_randomized_stage")
         res.log.add("call", i, subs.index(sub), seed, adv, o[1:] if o[0] == "ok" else o)
         sub.outcomes.append((seed, o))
         res.checks_sim += 1
